@@ -46,6 +46,38 @@ Proof.
   unfold ex_lit. pose proof (cv_lit_no_oof v). destruct (cv_lit_to_json v) as [j|[]|]; try discriminate. contradiction.
 Qed.
 
+Lemma ex_arglit_json_no_oof vars : forall v, ex_arglit_json vars v <> CvOutOfFuel.
+Proof.
+  fix IH 1. intros v. destruct v as [| | | | | | |l|fs]; cbn [ex_arglit_json cv_lit_to_json]; try discriminate.
+  - destruct (json_number_of_float_text text); discriminate.
+  - destruct (json_number_of_int_text text); discriminate.
+  - assert (H : (fix go (l : list value) : cv_res (list json) :=
+                 match l with
+                 | [] => CvOk []
+                 | x :: r => cv_bind (ex_arglit_json vars x) (fun y => cv_bind (go r) (fun ys => CvOk (y :: ys)))
+                 end) l <> CvOutOfFuel).
+    { induction l as [|x r IHl]; [discriminate|].
+      pose proof (IH x) as Hx. destruct (ex_arglit_json vars x); cbn [cv_bind]; [|discriminate|congruence].
+      match goal with |- cv_bind ?e _ <> _ => destruct e end; cbn [cv_bind]; [discriminate|discriminate|congruence]. }
+    match goal with |- cv_bind ?e _ <> _ => destruct e end; cbn [cv_bind]; [discriminate|discriminate|congruence].
+  - assert (H : (fix go (l : list (str * value)) : cv_res (list (str * json)) :=
+                 match l with
+                 | [] => CvOk []
+                 | (k, x) :: r =>
+                     cv_bind (ex_arglit_json vars x) (fun y => cv_bind (go r) (fun ys => CvOk ((k, y) :: ys)))
+                 end) fs <> CvOutOfFuel).
+    { induction fs as [|[k x] r IHl]; [discriminate|].
+      pose proof (IH x) as Hx. destruct (ex_arglit_json vars x); cbn [cv_bind]; [|discriminate|congruence].
+      match goal with |- cv_bind ?e _ <> _ => destruct e end; cbn [cv_bind]; [discriminate|discriminate|congruence]. }
+    match goal with |- cv_bind ?e _ <> _ => destruct e end; cbn [cv_bind]; [discriminate|discriminate|congruence].
+Qed.
+
+Lemma ex_arglit_nofuel vars v : ex_arglit vars v <> AcFuel.
+Proof.
+  unfold ex_arglit. pose proof (ex_arglit_json_no_oof vars v).
+  destruct (ex_arglit_json vars v) as [j|[]|]; try discriminate. contradiction.
+Qed.
+
 Lemma ac_bind_nofuel {A B} (x : ac_res A) (f : A -> ac_res B) :
   x <> AcFuel -> (forall a, x = AcOk a -> f a <> AcFuel) -> ac_bind x f <> AcFuel.
 Proof. intros Hx Hf. destruct x as [a|c|]; cbn [ac_bind]; [now apply Hf|discriminate|contradiction]. Qed.
@@ -104,10 +136,10 @@ Proof.
                           (fun o => AcOk (JObj o))
                   | _ => AcErr EcArg
                   end
-              | Some _ => ex_lit v
+              | Some _ => ex_arglit vars v
               end <> AcFuel).
     { intros n. destruct (sch_get_type s n) as [tdef|] eqn:Eg; [|discriminate].
-      destruct tdef; try apply ex_lit_nofuel.
+      destruct tdef; try apply ex_arglit_nofuel.
       destruct v; try discriminate. cbv zeta.
       destruct (existsb _ fields0); [discriminate|].
       apply ac_bind_nofuel; [|discriminate].
@@ -246,6 +278,34 @@ Proof.
            end; try (eapply Hmeta; [|exact Hin]; tauto).
 Qed.
 
+(* the bound on the types of fields *)
+Lemma schema_field_ty_max_ge_one s : (1 <= ex_schema_field_ty_max s)%nat.
+Proof. unfold ex_schema_field_ty_max. apply (fold_max_acc_ge cv_ty_size). Qed.
+
+Lemma type_field_ty_size s tn fname fdef :
+  td_type_field s tn fname = Some fdef -> (cv_ty_size (fd_ty fdef) <= ex_schema_field_ty_max s)%nat.
+Proof.
+  unfold td_type_field. destruct (sch_get_type s tn) as [t|] eqn:Eg; [|discriminate].
+  apply sch_find_type_in in Eg. pose proof (schema_field_ty_max_ge_one s) as Hone.
+  assert (Hexp : forall fs, (forall f, In f fs -> In (fd_ty (c_val f)) (ex_schema_field_tys s)) ->
+            td_find_fd fname fs = Some fdef -> (cv_ty_size (fd_ty fdef) <= ex_schema_field_ty_max s)%nat).
+  { intros fs Hfs Hf. destruct (td_find_fd_in _ _ _ Hf) as (c & Hc & -> & _).
+    unfold ex_schema_field_ty_max. apply (fold_max_acc_in cv_ty_size). now apply Hfs. }
+  assert (Hin : forall fs, match t with EObject _ _ _ _ fs' _ | EInterface _ _ _ _ fs' _ => fs' = fs | _ => False end ->
+            forall f, In f fs -> In (fd_ty (c_val f)) (ex_schema_field_tys s)).
+  { intros fs Hk f Hf. unfold ex_schema_field_tys. apply in_flat_map. exists t. split; [exact Eg|].
+    destruct t; try contradiction; subst; cbv beta iota; now apply (in_map (fun f0 : comp fielddef => fd_ty (c_val f0))). }
+  intros H.
+  destruct t as [desc nm dirs b|desc nm impls dirs fs b|desc nm impls dirs fs b|desc nm dirs ms b|desc nm dirs vs b|desc nm dirs fs b];
+    try (destruct (td_find_fd fname fs) as [fd|] eqn:Ef;
+         [injection H as <-; eapply Hexp; [apply Hin; reflexivity|exact Ef]|]);
+    repeat match type of H with
+           | (if ?c then _ else _) = _ => destruct c
+           | Some _ = Some _ => injection H as <-
+           | None = Some _ => discriminate
+           end; try (cbn; exact Hone).
+Qed.
+
 Section CoerceArgs.
 Variables (s : schema) (d : rdoc) (vars : jmap).
 Let cx := ex_cx_for s d vars.
@@ -297,7 +357,7 @@ Section Exec.
 Variables (s : schema) (d : rdoc) (vars : jmap) (w : world).
 Let cx := ex_cx_for s d vars.
 Let frags := rd_frags d.
-Let maxty := rd_max rsl_max_ty d.
+Let maxty := ex_ty_max s d.
 Let c := (2 * maxty + 8)%nat.
 
 Definition nofuel {A} (p : em (xres A)) : Prop := forall st log, fst (fst (run_sync w (p st) log)) <> XrFuel.
@@ -406,8 +466,9 @@ Proof.
     inversion Hfs as [|? ? H0 Hr]; subst. destruct H0 as (Hfld & Hd & Hdep).
     pose proof (coerce_args_fuel s d vars otn fdef f0 Ht Hd) as Hca. fold cx in Hca.
     destruct (ex_coerce_args cx fdef f0) as [args|cl|]; [| |contradiction].
-    + assert (Hcomp : forall r, nofuel (ex_complete fuel cx rpath (rs_dty f0) r f0 rest)).
-      { intros r. apply (IHc _ _ _ _ _ m); [exact Hfs|]. pose proof (doc_node_ty_size d f0 Hd Hfld). unfold maxty in *. lia. }
+    + assert (Hcomp : forall r, nofuel (ex_complete fuel cx rpath (fd_ty fdef) r f0 rest)).
+      { intros r. apply (IHc _ _ _ _ _ m); [exact Hfs|]. pose proof (type_field_ty_size s otn _ fdef Ht).
+        unfold maxty, ex_ty_max in *. lia. }
       rewrite rs_bind.
       match goal with
       | |- context [run_sync w (?x st) log] =>
@@ -567,10 +628,10 @@ Qed.
 Lemma execute_prog_nofuel root impls : rd_acyclic d = true ->
   forall log, fst (fst (run_sync w (execute_prog s d vars root impls) log)) <> XrFuel.
 Proof.
-  intros Ha log. unfold execute_prog. destruct (fuel_all (ex_fuel_for d)) as (Hs & _).
+  intros Ha log. unfold execute_prog. destruct (fuel_all (ex_fuel_for s d)) as (Hs & _).
   apply (Hs [] root impls 0%N (rd_sels d) _ (root_sels_ok Ha)).
   unfold ex_fuel_for, c, maxty, frags. set (D := rd_max rsl_depth d). set (K := length (rd_frags d)).
-  set (M := rd_max rsl_max_ty d). nia.
+  set (M := ex_ty_max s d). nia.
 Qed.
 
 End Exec.
